@@ -30,7 +30,7 @@ PREFIX = "Pair:"
 # (none at present); module attribute PAIR_EXCLUDE = {"SystemName", ...} adds to it
 EXCLUDE = {}
 
-NODE_CAP = {"quick": 6000, "thorough": 40000}
+NODE_CAP = {"quick": 4000, "thorough": 40000}
 # systems whose single step costs a millisecond or more (tree builds, histograms, kNN graphs, PCA, ensembles): a quarter
 # of the node budget (deterministic, so that the bound explored does not depend on the machine's load)
 HEAVY = ("Kdq", "PCACD", "NNDVI", "HDDDM", "CDBD", "MD3", "Stream", "Batch", "Multi", "Ens")
@@ -208,7 +208,10 @@ def derive(mod, tasks, tier):
                 # equal-configuration pair gets draws of its own (its model / twin is seeded with the same id), so that
                 # something handed from one instance to the other is not hidden by being identical anyway
                 cfg_b["id"] = "%s~b" % (cfg_b["id"],)
-            for sched, depth in (("alt", d_alt), ("free", d_free), ("seq", d_alt), ("blocks", d_alt)):
+            scheds = [("alt", d_alt), ("seq", d_alt), ("blocks", d_alt)]
+            if tier == "thorough":  # every interleaving, at the smaller depth the doubled branching allows
+                scheds.append(("free", d_free))
+            for sched, depth in scheds:
                 pa, pb = list(ta.get("prefix", ())), list(tb.get("prefix", ()))
                 depth += len(pa) + len(pb)
                 cfg = {"id": "pair:%s+%s:%s" % (ida, idb, sched), "a": ta["cfg"], "b": cfg_b, "sched": sched,
